@@ -183,6 +183,7 @@ type ProfRow struct {
 	Array      string // "", "[N]", "[3]" ...
 	Components []string
 	RefFields  []string
+	Scale      string
 	Enabled    bool // EXAMPLE column neither empty nor "0"
 	Example    string
 	ParentRow  int // sub-fields: row number of the main field they belong to
@@ -235,6 +236,7 @@ func (wb *Workbook) ProfileRows() ([]ProfRow, error) {
 		}
 		pr := ProfRow{RowNum: r.Num, Mesg: cur, Name: name, Type: strings.TrimSpace(r.Cell(3)), Array: strings.TrimSpace(r.Cell(4))}
 		pr.Components = splitList(r.Cell(5))
+		pr.Scale = strings.TrimSpace(r.Cell(6))
 		pr.RefFields = splitList(r.Cell(11))
 		ex := strings.TrimSpace(r.Cell(15))
 		// The generator treats an empty or "0" product cell as disabled; any
